@@ -184,7 +184,7 @@ func runC05Func(c C05Addr, info *kit.Info) *kit.Finding {
 }
 
 func TestC05_Func(t *testing.T) {
-	p := kit.Prop[C05Addr]{ID: "C05", Name: "Func", Quick: 400000, Thorough: 16000000, Gen: genC05Addr, Run: runC05Func}
+	p := kit.Prop[C05Addr]{ID: "C05", Name: "Func", Quick: 1000000, Thorough: 40000000, Gen: genC05Addr, Run: runC05Func}
 	p.Execute(t)
 }
 
@@ -557,7 +557,7 @@ func statusOf(r *kit.RecTCPConn) string {
 }
 
 func TestC05_TCP(t *testing.T) {
-	p := kit.Prop[C05E2E]{ID: "C05", Name: "TCP", Quick: 1600, Thorough: 60000, Gen: genC05E2E, Run: runC05TCP}
+	p := kit.Prop[C05E2E]{ID: "C05", Name: "TCP", Quick: 6000, Thorough: 600000, Gen: genC05E2E, Run: runC05TCP}
 	p.Execute(t)
 }
 
@@ -670,6 +670,6 @@ func runC05UDP(c C05E2E, info *kit.Info) *kit.Finding {
 }
 
 func TestC05_UDP(t *testing.T) {
-	p := kit.Prop[C05E2E]{ID: "C05", Name: "UDP", Quick: 1600, Thorough: 60000, Gen: genC05E2E, Run: runC05UDP}
+	p := kit.Prop[C05E2E]{ID: "C05", Name: "UDP", Quick: 6000, Thorough: 600000, Gen: genC05E2E, Run: runC05UDP}
 	p.Execute(t)
 }
